@@ -18,13 +18,13 @@ add('C12', 'exhaustive enumeration of the unit tables (pairs, triples, cross-typ
     'are checked by number vs symbol, and random numeric arguments / compositions exercise linearity. Finite part exhaustive; numeric part exploration.',
     'Trusted: literal precision is read from constants.py with ast (<=2 significant digits = exact, floor 1e-9); periodic table Z->symbol in the harness.',
     'DESIGN.md 3/C12')
-add('C14', 'Hypothesis grammar-based strings + differential reference parser (exact rationals), print/parse round-trip, constructed balanced/unbalanced reactions',
+add('C14', 'Hypothesis grammar-based strings + differential reference parser (exact rationals), print/parse round-trip, constructed balanced/unbalanced reactions; thorough tier adds coverage-guided atheris (libFuzzer) campaigns through hypothesis.fuzz_one_input with the same oracles',
     'Reaction strings are generated from the stated grammar (names, omitted/integer/decimal coefficients, blanks, 10 delimiter pairs, TS) and parsed by pMuTT and by an '
     'independent reference parser in exact rationals; Reaction objects are printed with every format and parsed back (also through a RING file); element balance is decided '
     'exactly in rationals on reactions constructed to balance and on perturbed ones; formulas are compared with their own token lists. Exploration only.',
     'Trusted: the reference parser/tokeniser in vf/p14.py; names never contain a delimiter; imbalances in (0,1e-6) relative are not generated.',
     'DESIGN.md 3/C14')
-add('C18', 'Hypothesis generated id collections / token lists + reference range decoder (round-trip) and unwrap oracle; exhaustive small-universe sweep',
+add('C18', 'Hypothesis generated id collections / token lists + reference range decoder (round-trip) and unwrap oracle; exhaustive small-universe sweep; thorough tier adds coverage-guided atheris (libFuzzer) campaigns with the same oracles',
     'Identifier collections (1-3 prefixes incl. delimiter-containing and empty ones, gaps, duplicates, any order, str/.id/.name, both formats) are compressed and '
     'expanded again by an independent decoder: decoded set must equal the input set; all 512 subsets of a 9-id universe are enumerated; un-encodable members must raise; '
     'wrapped CTI values are unwrapped and compared token by token with per-line width limits. Exploration (small universe exhaustive).',
@@ -95,7 +95,7 @@ add('C03', 'Hypothesis generated sources x windows x break choices + oracles: an
     'least-squares fit of the same form. Exploration only.',
     'Trusted: vf/ref.py basis functions, StatMech Cp/H/S (C01); reference least squares uses the library\'s own split/weighting; NASA-9 intervals keep >= 9 data points.',
     'DESIGN.md 3/C03')
-add('C05', 'Hypothesis generated species collections with adversarial names + write/read round-trip and an independent fixed-column reference parser of the Chemkin thermo card',
+add('C05', 'Hypothesis generated species collections with adversarial names + write/read round-trip and an independent fixed-column reference parser of the Chemkin thermo card; thorough tier adds a coverage-guided atheris (libFuzzer) campaign with the same oracles',
     'Collections of 1-40 NASA-7 species with names containing END / THERMO, leading digits, 15 printable characters, 1-4 elements with two-letter symbols and counts up to 999 (also as '
     'integral floats, zero counts), any one-character phase, temperatures up to 9999.9 K and coefficients 0 or 1e-30..1e30 are written (file or string, list or dict, date/notes, '
     'comment block, supplementary data) and (a) parsed by a reference fixed-column reader - 80 columns, record number in column 80, five 15-character fields, composition in columns '
